@@ -7,6 +7,6 @@ CONSTANTS
   AllPosUpTo = 16
   WideAcc = FALSE
   LongMode = "quick"
-  Families = {"raw", "pat", "hdr", "echo4", "echo6", "pair6", "fold", "crit6", "long"}
+  Families = {"raw", "pat", "hdr", "echo4", "echo6", "pair6", "fold", "fold32", "crit6", "long"}
 INVARIANTS Lemmas Export
 CHECK_DEADLOCK FALSE
